@@ -1946,9 +1946,9 @@ def eb_run(env, cfg, e, build, pz):
     ctx = eb_discover(env, cfg)
     r = env.runner(cfg)
     p = Prog(poison=pz)
-    key = (id(r), r.starts)
+    key = r.epoch()
     skip = 0
-    if ctx["cur"] != (key, e.cid) or r.proc is None or r.proc.poll() is not None or r.ncases + 1 >= r.recycle:
+    if ctx["cur"] != (key, e.cid):
         p.call("c07_eb_param_set", e.cid)
         ctx["cur"] = (key, e.cid)
         skip = 1
@@ -2391,9 +2391,9 @@ def ed_run(env, cfg, e, build, pz):
     ctx = ed_discover(env, cfg)
     r = env.runner(cfg)
     p = Prog(poison=pz)
-    key = (id(r), r.starts)
+    key = r.epoch()
     skip = 0
-    if ctx["cur"] != (key, e.cid) or r.proc is None or r.proc.poll() is not None or r.ncases + 1 >= r.recycle:
+    if ctx["cur"] != (key, e.cid):
         p.call("c07_ed_param_set", e.cid)
         ctx["cur"] = (key, e.cid)
         skip = 1
